@@ -20,7 +20,7 @@ RULE = (
 
 def run(rec, hub, tier, seed, shard, nshards, budget):
     rec.require(dsm.M16, 50)
-    n = 150 if tier == "quick" else 1500
+    n = 210 if tier == "quick" else 1500
     for k in range(n):
         if not budget.ok():
             break
